@@ -439,20 +439,29 @@ def row_rec(ctx):
             if isinstance(d, Rat) and A.key(A.sym(a)) in cands_j:
                 cands_j1.add(A.key(A.add(A.sym(a), A.const(1))))
         cands_j1.add(j1key)
-        # row variables under any name: a local whose definition expands to i + offset (+ 1)
+        # row variables under any name: a local whose definition, over the loop variable, the
+        # offset and row variables already known, equals i + offset (+ 1)
         want_j = A.add(A.sym(ivar), A.sym(off))
         want_j1 = A.add(want_j, A.const(1))
-        for a, d in ev.defs.items():
-            if not isinstance(d, Rat):
-                continue
-            try:
-                full = ev.expand(A.sym(a))
-            except Exception:
-                continue
+        rowvars = {}
+        for _ in range(4):
+            grew = False
+            for a, d in ev.defs.items():
+                if a in rowvars or not isinstance(d, Rat):
+                    continue
+                if not A.atoms_of(d) <= ({ivar, off} | set(rowvars)):
+                    continue
+                full = A.subst(d, dict(rowvars)) if rowvars else d
+                if A.eq(full, want_j) or A.eq(full, want_j1):
+                    rowvars[a] = full
+                    grew = True
+            if not grew:
+                break
+        for a, full in rowvars.items():
             if A.eq(full, want_j):
                 cands_j.add(A.key(A.sym(a)))
                 cands_j1.add(A.key(A.add(A.sym(a), A.const(1))))
-            elif A.eq(full, want_j1):
+            else:
                 cands_j1.add(A.key(A.sym(a)))
         for role in ('lla', 'vel', 'mat'):
             p = pa[role]
